@@ -115,11 +115,99 @@ fn check_entry(e: &Entry, max_len: usize, stats: &mut Stats, known: &verdict::Kn
     }
 }
 
+/// C15 on the generated back-end: error detail off vs on must give the same result.
+fn check_entry_c15(e: &Entry, max_len: usize, stats: &mut Stats) {
+    let alpha: Vec<char> = e.alphabet.chars().collect();
+    let inputs = vcore::strings_upto(&alpha, max_len);
+    for rule in e.rules {
+        for input in &inputs {
+            pest::set_error_detail(false);
+            let off = (e.run)(rule, input);
+            pest::set_error_detail(true);
+            let on = (e.run)(rule, input);
+            pest::set_error_detail(false);
+            stats.inc("evaluations");
+            if !matches!(&off, Out::Ok(t) if t.is_empty()) {
+                stats.inc("distinct_nontrivial");
+            }
+            if off != on {
+                stats.violation_class("generated.result-differs", json!({"kind": "error-detail-changes-result", "backend": "generated", "grammar": e.grammar, "rule": rule, "input": input, "detail_off": show(&off), "detail_on": show(&on), "features": features()}));
+            } else {
+                stats.outcome(match &off {
+                    Out::Ok(_) => "gen:ok",
+                    Out::Err { .. } => "gen:err",
+                    _ => "gen:panic",
+                });
+            }
+        }
+    }
+}
+
+/// C12 on the generated back-end: every limit 1..=C+1.
+fn check_entry_c12(e: &Entry, max_len: usize, max_calls: usize, stats: &mut Stats) {
+    use std::num::NonZeroUsize;
+    let alpha: Vec<char> = e.alphabet.chars().collect();
+    let inputs = vcore::strings_upto(&alpha, max_len);
+    let is_clr = |o: &Out| matches!(o, Out::Err { custom: Some(m), .. } if m == "call limit reached");
+    for rule in e.rules {
+        for input in &inputs {
+            pest::set_call_limit(None);
+            let inf = (e.run)(rule, input);
+            if matches!(inf, Out::Panic(_) | Out::NoSuchRule) {
+                stats.inc("excluded.unlimited-run-panics(documented empty-stack panic)");
+                continue;
+            }
+            pest::set_call_limit(NonZeroUsize::new(usize::MAX / 2));
+            let big = (e.run)(rule, input);
+            let calls = pest::verif::last_call_count();
+            pest::set_call_limit(None);
+            let Some(c) = calls else {
+                stats.failures.push("hook H2 returned no call count".into());
+                return;
+            };
+            if big != inf {
+                stats.violation_class("generated.huge-limit-differs", json!({"kind": "result-under-unreachable-limit-differs", "backend": "generated", "grammar": e.grammar, "rule": rule, "input": input, "features": features()}));
+                continue;
+            }
+            if c > max_calls {
+                stats.inc("excluded.more-calls-than-the-tier-sweeps");
+                continue;
+            }
+            let mut completed_at = None;
+            for l in 1..=c + 1 {
+                pest::set_call_limit(NonZeroUsize::new(l));
+                let r = (e.run)(rule, input);
+                pest::set_call_limit(None);
+                stats.inc("evaluations");
+                if l > 1 && l <= c {
+                    stats.inc("distinct_nontrivial");
+                }
+                let same = r == inf;
+                if !same && !is_clr(&r) {
+                    stats.violation_class("generated.silent-change", json!({"kind": "limit-changes-result-silently", "backend": "generated", "grammar": e.grammar, "rule": rule, "input": input, "limit": l, "calls_needed": c, "unlimited": show(&inf), "limited": show(&r), "features": features()}));
+                    break;
+                }
+                if same && completed_at.is_none() {
+                    completed_at = Some(l);
+                }
+                if !same {
+                    if let Some(l0) = completed_at {
+                        stats.violation_class("generated.not-monotone", json!({"kind": "completes-under-smaller-limit-but-not-larger", "backend": "generated", "grammar": e.grammar, "rule": rule, "input": input, "completes_at": l0, "fails_at": l, "features": features()}));
+                        break;
+                    }
+                }
+            }
+            stats.outcome(&format!("gen:calls{}", c.min(12)));
+        }
+    }
+}
+
 fn main() {
     let cfg = Cfg::from_env();
     vcore::quiet_panics();
     let known = verdict::Known::load();
     let corpus = corpus();
+    let prop = cfg.opt("--prop").unwrap_or_else(|| "C02".to_string());
     let built_thorough = p0::THOROUGH;
     let max_len = cfg.opt("len").and_then(|s| s.parse().ok()).unwrap_or(if built_thorough { 5 } else { 4 });
     if let Some(mut w) = Worker::from_env() {
@@ -131,7 +219,16 @@ fn main() {
             if !w.begin(|| e.grammar.to_string()) {
                 continue;
             }
-            check_entry(e, max_len, &mut st, &known);
+            match prop.as_str() {
+                "C15" => check_entry_c15(e, max_len.min(if built_thorough { 4 } else { 3 }), &mut st),
+                "C12" => {
+                    // the sweep is quadratic in the call count: a thinner slice of the corpus, shorter inputs
+                    if i % (if built_thorough { 2 } else { 4 }) == 0 {
+                        check_entry_c12(e, 3, if built_thorough { 200 } else { 60 }, &mut st)
+                    }
+                }
+                _ => check_entry(e, max_len, &mut st, &known),
+            }
         }
         w.finish(st);
     }
@@ -185,6 +282,10 @@ fn main() {
         }
         stats.add(&format!("evaluations.{name}"), s.get("evaluations"));
         stats.merge(s);
+    }
+    if cfg.has("--emit-stats") {
+        println!("@STATS {}", stats.to_json());
+        return;
     }
     stats.add("grammars_rejected_at_build", (p0::REJECTED_AT_BUILD + p1::REJECTED_AT_BUILD + p2::REJECTED_AT_BUILD + p3::REJECTED_AT_BUILD + p4::REJECTED_AT_BUILD + p5::REJECTED_AT_BUILD + p6::REJECTED_AT_BUILD + p7::REJECTED_AT_BUILD) as u64);
     let mut cov = vcore::Map::new();
